@@ -668,6 +668,9 @@ pub fn oracle_c10(rng: &mut Rng, tier: &str) -> Report {
             mappings.push(t);
         }
     }
+    mappings.push(crate::gens::threshold_mapping(130));
+    mappings.push(crate::gens::threshold_mapping(300));
+    mappings.push(crate::gens::boundary_mapping());
     for (mi, text) in mappings.iter().enumerate() {
         let u = universe(text);
         let mut qs = query_universe(rng, &u, 6);
@@ -841,6 +844,15 @@ fn c14_mappings(seed: u64, tier: &str) -> Vec<Vec<u8>> {
             v.push(t);
         }
     }
+    v.push(crate::gens::threshold_mapping(130));
+    v.push(crate::gens::threshold_mapping(300));
+    v.push(crate::gens::boundary_mapping());
+    // many classes / many distinct strings (hash-map growth thresholds)
+    let mut t = String::new();
+    for i in 0..1500 {
+        t.push_str(&format!("o.K{} -> k{}:\n    void m{}(int) -> a\n    void m{}(long) -> a\n", i, i % 700, i, i));
+    }
+    v.push(t.into_bytes());
     v
 }
 
@@ -970,7 +982,10 @@ impl Write for ScriptSink {
             Act::Interrupted => Err(io::Error::new(io::ErrorKind::Interrupted, "interrupted")),
             Act::Fail => {
                 self.failed = true;
-                Err(io::Error::new(io::ErrorKind::Other, "sink failure"))
+                // a different non-retryable kind per call index
+                let kinds = [io::ErrorKind::Other, io::ErrorKind::WouldBlock, io::ErrorKind::TimedOut, io::ErrorKind::UnexpectedEof,
+                             io::ErrorKind::BrokenPipe, io::ErrorKind::WriteZero, io::ErrorKind::OutOfMemory, io::ErrorKind::InvalidData];
+                Err(io::Error::new(kinds[idx % kinds.len()], "sink failure"))
             }
         }
     }
@@ -987,7 +1002,8 @@ pub fn oracle_c15(rng: &mut Rng, tier: &str) -> Report {
         let mut cfg = Cfg::domain();
         cfg.max_classes = 3;
         cfg.max_members = 5;
-        let text = if i % 5 == 4 { gen_mapping(rng, &Cfg::hostile()).text } else { gen_mapping(rng, &cfg).text };
+        let text = if i == 1 { crate::gens::threshold_mapping(300) } else if i == 2 { crate::gens::boundary_mapping() }
+            else if i % 5 == 4 { gen_mapping(rng, &Cfg::hostile()).text } else { gen_mapping(rng, &cfg).text };
         let canon = proto::cur::write_cache(&text);
         let mapping = ProguardMapping::new(&text);
         let mut scripts: Vec<(usize, Option<(usize, Act)>)> = Vec::new();
@@ -1003,7 +1019,7 @@ pub fn oracle_c15(rng: &mut Rng, tier: &str) -> Report {
                 scripts.push((usize::MAX, Some((idx, act))));
             }
         }
-        for chunk in [1usize, 2, 3, 5] {
+        for chunk in [1usize, 2, 3, 5, 4096, 8191, 8192, 8193] {
             let mut p = ScriptSink { chunk, at: None, calls: 0, accepted: vec![], failed: false };
             let _ = ProguardCache::write(&mapping, &mut p);
             let nc = p.calls;
@@ -1141,7 +1157,7 @@ pub fn oracle_c20(rng: &mut Rng, tier: &str) -> Report {
     rep.stats.insert("send_sync_types_asserted_at_compile_time".into(), 15);
     let n = if thorough(tier) { 1600 } else { 160 };
     for i in 0..n {
-        let text = domain_mapping(rng, &Cfg::domain());
+        let text = if i == 1 { crate::gens::threshold_mapping(130) } else if i == 2 { crate::gens::boundary_mapping() } else { domain_mapping(rng, &Cfg::domain()) };
         let ms: &'static [u8] = Box::leak(text.clone().into_boxed_slice());
         let mapper = proto::cur::mapper(ms, true);
         let cbytes = proto::aligned_static(&proto::cur::write_cache(ms));
